@@ -7,7 +7,7 @@ from diffcheck import Spec, run_spec
 HARNESSES = [("h_lifecycle", "plain", ())]
 
 T_BEH = "cdfhrRpK"
-H_FAST = "cfkdbhrzsStAL"
+H_FAST = "cfkdbhrzsStALMOY"
 H_SLOW = "ijmw"
 
 
@@ -24,7 +24,7 @@ class C08(Spec):
             "4 MB write requested then closed unread (pending writes at abort), the handler keeps the peer and sends to it (Peer::send) 150 ms after the connection has ended - when a fresh connection holds its "
             "descriptor number (K), one connection keeps the worker busy while two others send data and close / half-close so that data and end of stream reach the worker in ONE readiness event, nothing being written back (n,u,v). Http::Endpoint with 600 ms time-outs (H): "
             "connect+close, request/response, keep-alive x2, partial head, partial body, request+shutdown(WR), request+RST, request for a slow 24 MB answer and close at once (the answer is written to a peer that has gone), "
-            "a 16 MB file served with Http::serveFile and abandoned after 17 bytes, the same file downloaded completely, an answer sent after ResponseWriter::timeoutAfter(300 ms) was armed, an answer sent by a thread of the handler's own 150 ms after the client has closed (L), "
+            "a 16 MB file served with Http::serveFile and abandoned after 17 bytes, the same file downloaded completely, an answer sent after ResponseWriter::timeoutAfter(300 ms) was armed, an answer sent by a thread of the handler's own 150 ms after the client has closed (L), the response time-out armed and the writer then moved before it answers (M) / moved to a thread that never answers so that the time-out fires (O) / answering at once and kept alive beyond the timer's expiry (Y), "
             "silence until the idle scan closes, partial head then silence, answered request then silence, a 24 MB answer never read (write blocked over several idle scans, 408 queued behind it) then RST. Per peer id the "
             "callback log (C connection, I input/request, D disconnection), callbacks after D, /proc/self/fd against the "
             "idle baseline, the number of entries in the workers' tables (Transport::peers, toWrite, timers - read through '#define private public' after every round, when all its clients are gone), and - after every round - as many fresh connections as the round had, which must each receive exactly "
@@ -51,6 +51,8 @@ class C08(Spec):
         cases += ["H 1 6 A,A,A", "H 2 4 A,f,A,S", "H 3 5 A,A,S,A,f,A"]
         cases.append("H 2 3 s,z,s,f")
         cases.append("H 1 4 t,t,f")
+        # the response time-out and a writer that is moved / kept (process abort before the fix)
+        cases += ["H 1 2 M", "H 1 2 O", "H 1 2 Y", "H 2 2 M,O,Y,t,f"]
         # data and end of stream in one readiness event (the worker is busy meanwhile), nothing written back
         cases += ["T 1 2 n,u,v", "T 1 3 n,u,v,u,v", "T 2 2 n,u,v,f"]
         # writes for a connection that has ended: Peer::send on a kept peer (T), an answer from a thread of the handler's (H)
